@@ -120,7 +120,14 @@ class C19:
                 vs[0][0] = "validation.x"
         nod = rnd.choice([-9999, -9999, "NaN", 0])
         mode = rnd.choices(["plain", "preexisting", "stale", "out_is_file", "write_faults"], [5, 1, 1, 1, 2])[0]
+        # an earlier job of the same process read other rasters at the same paths (decided from a hash, not from rnd,
+        # so that earlier scenarios keep their content): the products must carry the georeferencing of the files that
+        # are there when this job runs
+        import hashlib
+
+        hb = hashlib.sha256(harness.jdump([w, prog, nod, mode]).encode()).digest()[0]
         return {"harness": "cli", "world": w, "program": prog, "nodata": nod, "mode": mode,
+                "prior_job": mode in ("plain", "preexisting") and hb % 4 == 0,
                 "fresh_replay": mode == "plain" and rnd.random() < 0.08,
                 "img_dtype": rnd.choice(["float32", "float32", "int16", "uint8"]),
                 "fault": rnd.choice(["EIO", "ENOSPC", "EACCES"])}
@@ -183,6 +190,20 @@ class C19:
             elif mode == "out_is_file":
                 with open(out, "w") as f:
                     f.write("i am a file")
+            if sc.get("prior_job"):
+                import copy
+
+                w0 = copy.deepcopy(w)
+                w0["georef"] = None if w.get("georef") else {
+                    "crs": "EPSG:32630", "transform": [2.0, 0.0, 500000.0, 0.0, -2.0, 4100000.0],
+                    "transform_right": [2.0, 0.0, 500050.0, 0.0, -2.0, 4100000.0]}
+                wargs = dict(img_dtype=sc["img_dtype"] if sc["nodata"] != "NaN" else "float32",
+                             nodata_left=nodv if sc["nodata"] != "NaN" else np.nan,
+                             nodata_right=nodv if sc["nodata"] != "NaN" else np.nan)
+                files.write_world(w0, tmp, **wargs)
+                ioseam.run_main(cfg_path, os.path.join(tmp, "out_prior"), seam=None, capture=False)
+                files.write_world(w, tmp, **wargs)
+                faults["prior_job_then_inputs_rewritten"] = 1
             seam = ioseam.IOSeam()
             res = ioseam.run_main(cfg_path, out, seam=seam)
             if mode == "out_is_file":
@@ -369,6 +390,7 @@ class C19:
                        "right_products": int("validation" in kinds), "grid_disparities": int(w["disp"]["kind"] == "grid"),
                        "confidence_bands": int("cost_volume_confidence" in kinds),
                        "fresh_interpreter_replay": int(bool(sc.get("fresh_replay"))),
+                       "prior_job_same_paths": int(bool(sc.get("prior_job"))),
                        "mode:" + sc["mode"]: 1},
         }
 
@@ -378,6 +400,10 @@ class C19:
         if sc["mode"] != "plain":
             c = copy.deepcopy(sc)
             c["mode"] = "plain"
+            yield c
+        if sc.get("prior_job"):
+            c = copy.deepcopy(sc)
+            c["prior_job"] = False
             yield c
 
     def describe(self):
